@@ -57,6 +57,28 @@ type Case struct {
 	BodyCompete  []bool    `json:"body_compete"`
 	Other        string    `json:"other"`
 	OtherInBody  bool      `json:"other_in_body"`
+	// SubCompete: the query additionally names something INSIDE the path-bound
+	// field (a sub-field of a well-known-type message, or the sibling member
+	// of its oneof) - that must not disturb the path value either.
+	SubCompete []bool `json:"sub_compete"`
+}
+
+// subKey returns the query key/value that reaches into field f.
+func subKey(f, kind string) (string, string, bool) {
+	switch kind {
+	case "mask":
+		return f + ".paths", "secret", true
+	case "dur":
+		return f + ".seconds", "100", true
+	case "wi":
+		return f + ".value", "7", true
+	case "ws":
+		return f + ".value", "fromQuery", true
+	}
+	if f == "o_name" {
+		return "o_inner.id", "fromQuery", true
+	}
+	return "", "", false
 }
 
 var msgs = []*descriptorpb.DescriptorProto{
@@ -77,15 +99,21 @@ var msgs = []*descriptorpb.DescriptorProto{
 		dyn.F("update_mask", 7, dyn.Message, dyn.Of(".google.protobuf.FieldMask")),
 		dyn.F("ttl", 8, dyn.Message, dyn.Of(".google.protobuf.Duration")),
 		dyn.F("limit", 9, dyn.Message, dyn.Of(".google.protobuf.Int32Value")),
-		dyn.F("label", 10, dyn.Message, dyn.Of(".google.protobuf.StringValue"))),
+		dyn.F("label", 10, dyn.Message, dyn.Of(".google.protobuf.StringValue")),
+		dyn.F("o_name", 11, dyn.String, dyn.InOneof(0)),
+		dyn.F("o_inner", 12, dyn.Message, dyn.Of(".c7.Inner"), dyn.InOneof(0))),
+}
+
+func init() {
+	msgs[2].OneofDecl = []*descriptorpb.OneofDescriptorProto{{Name: proto.String("choice")}}
 }
 
 var fieldKinds = map[string]string{
 	"name": "s", "shelf_id": "i", "book.display_name": "s", "book.pages": "i",
 	"book.inner.id": "s", "book.inner.big_num": "i", "sub.id": "s", "sub.big_num": "i", "count": "u", "book.title": "s",
-	"update_mask": "mask", "ttl": "dur", "limit": "wi", "label": "ws",
+	"update_mask": "mask", "ttl": "dur", "limit": "wi", "label": "ws", "o_name": "s",
 }
-var fieldNames = []string{"name", "shelf_id", "book.display_name", "book.pages", "book.inner.id", "book.inner.big_num", "sub.id", "sub.big_num", "count", "book.title", "update_mask", "ttl", "limit", "label"}
+var fieldNames = []string{"name", "shelf_id", "book.display_name", "book.pages", "book.inner.id", "book.inner.big_num", "sub.id", "sub.big_num", "count", "book.title", "update_mask", "ttl", "limit", "label", "o_name"}
 
 func (c Case) template() string {
 	var sb strings.Builder
@@ -243,6 +271,13 @@ func Check(c Case) (vs []evid.Violation, delivered bool) {
 			q.Add(k, v.V2)
 			if c.QueryTwice {
 				q.Add(k, v.V2)
+			}
+		}
+	}
+	for i, v := range c.Vars {
+		if i < len(c.SubCompete) && c.SubCompete[i] {
+			if k, val, ok := subKey(v.Field, fieldKinds[v.Field]); ok {
+				q.Add(k, val)
 			}
 		}
 	}
@@ -413,9 +448,14 @@ func genCase(t *rapid.T) Case {
 		if c.Body == "" || (c.Body == "book" && !strings.HasPrefix(v.Field, "book.")) {
 			bc = false
 		}
+		sc := rapid.Bool().Draw(t, "sc")
+		if _, _, ok := subKey(v.Field, fieldKinds[v.Field]); !ok {
+			sc = false
+		}
 		c.QueryCompete = append(c.QueryCompete, qc)
 		c.BodyCompete = append(c.BodyCompete, bc)
-		any = any || qc || bc
+		c.SubCompete = append(c.SubCompete, sc)
+		any = any || qc || bc || sc
 	}
 	if !any {
 		c.QueryCompete[0] = true
@@ -437,6 +477,9 @@ func classes(c Case, delivered bool) (string, []string) {
 		}
 		if c.BodyCompete[i] {
 			ch += "b"
+		}
+		if i < len(c.SubCompete) && c.SubCompete[i] {
+			ch += "s"
 		}
 		key += fmt.Sprintf("|%s=%s:%s", v.Field, v.Pattern, ch)
 		cl = append(cl, "channel="+ch, "kind="+fieldKinds[v.Field])
